@@ -19,7 +19,12 @@
 (*              arity is iterated in POINTER order (= rank) and then       *)
 (*              std::sort'ed with RemapCompareLess; std::sort of <= 16     *)
 (*              elements is an insertion sort, so elements that compare    *)
-(*              equal keep their incoming order                            *)
+(*              equal keep their incoming order.  The same pointer-ordered *)
+(*              set is the source of the remap LISTING of slot wrappers    *)
+(*              (operator (), __getitem__, ...: SlottedFunctionDef::_remaps*)
+(*              copied into a vector for write_function_for_name, whose    *)
+(*              doc comment and error texts follow the vector's order);    *)
+(*              the mitigation is to order that vector by signature        *)
 (*   Manifests  unordered_map<string, CPPManifest*> iteration assigns the  *)
 (*              manifest indices: the order is a function of the keys      *)
 (*              (std::hash<string> has no per-process seed)                *)
@@ -65,11 +70,12 @@ VARIABLES ov,        \* the overload set: set of tuples of category ids (the inp
           hid,       \* hidden inputs nothing reads: [loc, env]
           rank,      \* hidden: heap address rank of each overload's FunctionRemap
           emitted,   \* order in which the overloads are tried in the generated wrapper
+          listed,    \* order in which a slot wrapper lists its overloads (doc comment, messages)
           ident,     \* file identifier of this run
           epoch,     \* SOURCE_DATE_EPOCH of this run (0 = unset)
           outs       \* outputs of the finished runs
 
-vars == <<ov, phase, hid, rank, emitted, ident, epoch, outs>>
+vars == <<ov, phase, hid, rank, emitted, listed, ident, epoch, outs>>
 
 -----------------------------------------------------------------------------
 (* Orders on overloads *)
@@ -110,6 +116,9 @@ Less(tb, a, b) == \/ KeyLess(KeyOf(a), KeyOf(b))
 Sorted(tb, S, r) ==
   SetToSortSeq(S, LAMBDA a, b : Less(tb, a, b) \/ (~Less(tb, b, a) /\ r[a] < r[b]))
 
+\* iteration order of a std::set<FunctionRemap*> whose elements have address ranks r
+PtrOrder(S, r) == SetToSortSeq(S, LAMBDA a, b : r[a] < r[b])
+
 Ranks(S) == {r \in [S -> 1..Cardinality(S)] : \A a, b \in S : a # b => r[a] # r[b]}
 SigOrder(S) == SetToSortSeq(S, SigLess)
 SigRank(S) == LET q == SigOrder(S) IN [a \in S |-> CHOOSE i \in 1..Len(q) : q[i] = a]
@@ -128,11 +137,18 @@ Macros == {1, 2, 3}
 BucketOrder(K) == SetToSortSeq(K, LAMBDA a, b : \/ (a * 7) % 5 < (b * 7) % 5
                                                 \/ ((a * 7) % 5 = (b * 7) % 5 /\ a < b))
 
+(* std::set<CPPType *> _external_imports is iterated in pointer order, copied to a vector and *)
+(* std::sort'ed by get_local_name (unique per type): whatever the address ranks t of the type *)
+(* objects, the emitted table is the name order.                                              *)
+ExtTypes == {1, 2, 3}
+ImportOrder(t) == SetToSortSeq(ExtTypes, LAMBDA a, b : a < b \/ (a = b /\ t[a] < t[b]))
+ImportsPure == \A t1, t2 \in Ranks(ExtTypes) : ImportOrder(t1) = ImportOrder(t2)
+
 -----------------------------------------------------------------------------
 Arity == IF ov = {} THEN 0 ELSE Len(CHOOSE o \in ov : TRUE)
 N == Cardinality(ov)
 
-Init == /\ ov = {} /\ phase = "build" /\ hid = <<>> /\ rank = <<>> /\ emitted = <<>>
+Init == /\ ov = {} /\ phase = "build" /\ hid = <<>> /\ rank = <<>> /\ emitted = <<>> /\ listed = <<>>
         /\ ident = 0 /\ epoch = 0 /\ outs = <<>>
 
 \* overloads are appended in signature order, so every SET is built exactly once
@@ -141,24 +157,25 @@ AddOverload(o) ==
   /\ \A p \in ov : Len(p) = Len(o) /\ SigLess(p, o)
   /\ N < (IF Len(o) = 1 THEN MaxOver1 ELSE MaxOver2)
   /\ ov' = ov \cup {o}
-  /\ UNCHANGED <<phase, hid, rank, emitted, ident, epoch, outs>>
+  /\ UNCHANGED <<phase, hid, rank, emitted, listed, ident, epoch, outs>>
 
 Close == /\ phase = "build" /\ ov # {}
          /\ phase' = "start"
-         /\ UNCHANGED <<ov, hid, rank, emitted, ident, epoch, outs>>
+         /\ UNCHANGED <<ov, hid, rank, emitted, listed, ident, epoch, outs>>
 
 StartRun == /\ phase = "start"
             /\ \E l \in Locales, e \in EnvSizes : hid' = [loc |-> l, env |-> e]
             /\ phase' = "alloc"
-            /\ UNCHANGED <<ov, rank, emitted, ident, epoch, outs>>
+            /\ UNCHANGED <<ov, rank, emitted, listed, ident, epoch, outs>>
 
 Alloc == /\ phase = "alloc"
          /\ \E r \in Ranks(ov) : rank' = r
          /\ phase' = "sort"
-         /\ UNCHANGED <<ov, hid, emitted, ident, epoch, outs>>
+         /\ UNCHANGED <<ov, hid, emitted, listed, ident, epoch, outs>>
 
 SortStep == /\ phase = "sort"
             /\ emitted' = Sorted(TieBreak, ov, rank)
+            /\ listed' = IF TieBreak = "signature" THEN SigOrder(ov) ELSE PtrOrder(ov, rank)
             /\ phase' = "ident"
             /\ UNCHANGED <<ov, hid, rank, ident, epoch, outs>>
 
@@ -167,10 +184,11 @@ Ident == /\ phase = "ident"
               /\ epoch' = ep
               /\ ident' = IF ep # 0 THEN ep ELSE now
          /\ phase' = "write"
-         /\ UNCHANGED <<ov, hid, rank, emitted, outs>>
+         /\ UNCHANGED <<ov, hid, rank, emitted, listed, outs>>
 
 \* the three output files of a run
-Out == [code |-> [order |-> emitted, ident |-> ident],
+Out == [code |-> [order |-> emitted, doc |-> listed, ident |-> ident,
+                 imports |-> ImportOrder([x \in ExtTypes |-> x])],
         db   |-> [funcs |-> SigOrder(ov), manifests |-> BucketOrder(Macros), ident |-> ident],
         text |-> [funcs |-> SigOrder(ov)],
         epoch |-> epoch]
@@ -178,7 +196,7 @@ Out == [code |-> [order |-> emitted, ident |-> ident],
 Finish == /\ phase = "write"
           /\ outs' = Append(outs, Out)
           /\ phase' = IF Len(outs) = 0 THEN "start" ELSE "done"
-          /\ hid' = <<>> /\ rank' = <<>> /\ emitted' = <<>> /\ ident' = 0 /\ epoch' = 0
+          /\ hid' = <<>> /\ rank' = <<>> /\ emitted' = <<>> /\ listed' = <<>> /\ ident' = 0 /\ epoch' = 0
           /\ UNCHANGED ov
 
 Overloads == {<<c>> : c \in Cats1} \cup {<<c, d>> : c, d \in Cats2}
@@ -191,7 +209,7 @@ Spec == Init /\ [][Next]_vars
 -----------------------------------------------------------------------------
 (* Properties *)
 
-Strip(o) == [code |-> o.code.order, db |-> <<o.db.funcs, o.db.manifests>>, text |-> o.text]
+Strip(o) == [code |-> <<o.code.order, o.code.doc>>, db |-> <<o.db.funcs, o.db.manifests>>, text |-> o.text]
 
 \* C14: with the same SOURCE_DATE_EPOCH two runs give identical files; otherwise the files
 \* differ in the identifier only, and it is the same number in code and database of one run
@@ -200,6 +218,8 @@ OutputPure ==
   /\ Len(outs) = 2 =>
        /\ Strip(outs[1]) = Strip(outs[2])
        /\ (outs[1].epoch # 0 /\ outs[1].epoch = outs[2].epoch) => outs[1] = outs[2]
+
+ASSUME ImportsPure
 
 \* the identifier is the epoch when one is given
 EpochWins == \A i \in 1..Len(outs) : outs[i].epoch # 0 => outs[i].code.ident = outs[i].epoch
